@@ -748,8 +748,80 @@ def _inline_in_function(fn, helpers, chelp, inlined):
             inlined.append(h.name)
             changed = True
             i += len(new)
+    # ---- N7 generator helpers consumed by a for loop: `for x in g(...): BODY` where g only delegates (`yield from E`)
+    for owner, field, lst in _stmt_lists(fn):
+        i = 0
+        while i < len(lst):
+            st = lst[i]
+            i += 1
+            if not (isinstance(st, ast.For) and not st.orelse):
+                continue
+            site = _call_of(st.iter, helpers, chelp)
+            if site is None or site[0].fn is fn or not site[0].is_gen or site[2]:
+                continue
+            h, method, _via, call = site
+            ys = [n for n in _walk_fn(h.fn) if isinstance(n, (ast.Yield, ast.YieldFrom))]
+            if not ys or any(isinstance(n, ast.Yield) for n in ys):
+                continue
+            if any(isinstance(n, ast.Return) and n.value is not None for n in _walk_fn(h.fn)):
+                continue
+            if _break_at_level(st.body):
+                continue
+            try:
+                pro, body = h.instantiate(call, method, taken)
+            except NotInlineable:
+                continue
+            ok = True
+
+            class Fuse(ast.NodeTransformer):
+                def visit_FunctionDef(self, node):
+                    return node
+
+                def visit_Expr(self, node):
+                    if isinstance(node.value, ast.YieldFrom):
+                        loop = ast.For(target=copy.deepcopy(st.target), iter=node.value.value, body=copy.deepcopy(st.body), orelse=[])
+                        return ast.copy_location(loop, node)
+                    return node
+
+                def visit_Return(self, node):
+                    nonlocal ok
+                    ok = False  # an early `return` of the generator would have to leave only the fused loop
+                    return node
+            wrapper = ast.Module(body=body, type_ignores=[])
+            Fuse().visit(wrapper)
+            if not ok or any(isinstance(n, (ast.Yield, ast.YieldFrom)) and False for n in ast.walk(wrapper)):
+                continue
+            # every delegation must have been in statement position
+            left = [n for b in wrapper.body for n in _walk_stmt(b) if isinstance(n, ast.YieldFrom)]
+            body_yf = [n for b in st.body for n in _walk_stmt(b) if isinstance(n, ast.YieldFrom)]
+            if len(left) != len(body_yf) * sum(1 for n in ys):
+                continue
+            new = pro + wrapper.body
+            for n in new:
+                ast.fix_missing_locations(n)
+            lst[i - 1:i] = new
+            taken |= {n.id for s_ in new for n in ast.walk(s_) if isinstance(n, ast.Name)}
+            inlined.append(h.name)
+            changed = True
+            i += len(new) - 1
     ExprInline().visit(fn)
     return changed
+
+
+def _break_at_level(stmts):
+    for st in stmts:
+        if isinstance(st, ast.Break):
+            return True
+        if isinstance(st, (ast.For, ast.While, ast.AsyncFor, ast.FunctionDef, ast.AsyncFunctionDef, ast.ClassDef)):
+            continue
+        for field in ("body", "orelse", "finalbody"):
+            sub = getattr(st, field, None)
+            if isinstance(sub, list) and sub and isinstance(sub[0], ast.stmt) and _break_at_level(sub):
+                return True
+        for h in getattr(st, "handlers", []) or []:
+            if _break_at_level(h.body):
+                return True
+    return False
 
 
 # ------------------------------------------------------------------------------- N3 constants
